@@ -7,6 +7,8 @@ from areas import hashl
 def run(chk):
     # pointer level: chains as links through the elements' node fields refine the list-level model
     hashl.link_level_run(chk)
+    from areas import hashtree_tie
+    hashtree_tie.tie_run(chk, "hash2")
     return H.run_prop(chk)
 
 
